@@ -33,7 +33,7 @@ COMPONENTS = {"real": ["Model.__init__/update/finish", "ladim.main.main (sampled
                        "warm_start"],
               "stub": ["recording shims (subclasses delegating to the real classes)", "scripted IBM", "decoy module"]}
 ASSUMPTIONS = ["the shims override only methods the base classes have and delegate unchanged"]
-TIERS = {"quick": dict(runs=500, budget_s=50, shrink=100),
+TIERS = {"quick": dict(runs=900, budget_s=55, shrink=100),
          "thorough": dict(runs=50000, budget_s=900, shrink=200)}
 REQUIRED_PROBES = ["cold", "warm", "via_main", "plugin_relative_path", "plugin_module_name", "plugin_same_basename_two_dirs", "plugin_dotted_stem", "grid_plugin_with_close", "plain_run_before_and_after", "ibm_section_with_module_only", "plugin_named_like_a_ladim_module", "ibm_derived_from_base_class", "ibm_kill_checked",
                    "late_release", "scalar_in_record"]
